@@ -44,6 +44,18 @@ var Frags = []string{
 	"<div>", "<pre>", "</pre>", "<script>", "&", "&amp;", "&#35;", "&#x22;", "&x;", ";", "\\", "\\\\", "\\*", "\\\n", "\"", "'", "http://a.b", "<http://a.b>", "<a@b.c>",
 	"\x00", "\x00\x00", "é", "ß", "İ", " ", " ", "“", "猫", "\xff", "\xc3", "\x80", ":", "/u", " \"t\"", " 't'", " (t)", "!", "=", ".", ")", "|", "{", "}", "^", "$", "%", "%41", "%GG", "@", ",", "?",
 	"  \n", "\\\n", "\n    ", "\n  ", "\n> ", "\n- ", "\n1. ", "\n\t", "\n   ", "&copy;", "&notit;", "&#xG;", "&#0;", "<b>", "</b>", "[r]", "[r]: /u\n",
+	// further Unicode classes: symbols (Sc So Sm), a four-byte character, connector and dash punctuation, a number,
+	// a combining mark, NEL, line separator, zero-width space (Cf), ideographic space (Zs), U+FFFD, title case, ligature, sigmas
+	"€", "©", "±", "😀", "‿", "–", "½", "e\u0301", "\u0085", "\u2028", "\u200b", "\u3000", "\ufffd", "ǅ", "ﬁ", "Σ", "ς",
+	// numbers with leading zeros and of 9-11 digits, as list markers and as text
+	"08. ", "0019. ", "000000089) ", "010. ", "0123456789. ", "0000000001) ", "00000000000.", "123456789. ", "1234567890. ", "09)", "007",
+	"####### ", "#######", "###### ", "######",
+	// definitions on continuation lines with every kind of indentation
+	"\n\t[s]: /v", "\n \t[s]: /v 't'", "\n     [s]: /v", "\n  [s]: /v\n",
+	// invalid UTF-8 inside constructs
+	"[t](/x\xffy)", "<http://a\x80b>", "[r]: /u\xc3\n", "![\xff](/s \"\xc3\")", "`\xff`",
+	// list items that begin with a blank line, marker indented or not
+	"-\n  a", " -\n   a", "  1.\n     a", "-\n      code", "  -\n        code", "   *\n         code\n",
 }
 
 // Soup is G1: a weighted sequence of fragments with occasional arbitrary bytes.
@@ -110,9 +122,10 @@ func construct(t *rapid.T) string {
 }
 
 // Starts are the G2 block openers.
-var Starts = []string{"", "", "", "# ", "## ", "> ", "- ", "1. ", "   ", "    ", "\t", "```\n", "~~~\n", "<div>\n", "[r]: /u\n", "[r]: /u 't'\n", "---\n", "===\n", "* ", "+ ", "10) ", " > ", "  - ", "[a\nb]: /x\n", "[r]:\n/u\n", "[r]: /u\n'ti\ntle'\n", "<!-- x\n", "<pre>\n", "<script>\n", "``` info\n", "    code\n"}
+var Starts = []string{"", "", "", "# ", "## ", "> ", "- ", "1. ", "   ", "    ", "\t", "```\n", "~~~\n", "<div>\n", "[r]: /u\n", "[r]: /u 't'\n", "---\n", "===\n", "* ", "+ ", "10) ", " > ", "  - ", "[a\nb]: /x\n", "[r]:\n/u\n", "[r]: /u\n'ti\ntle'\n", "<!-- x\n", "<pre>\n", "<script>\n", "``` info\n", "    code\n",
+	"[r]: /u\n\t[s]: /v\n", "[r]: /u\n \t[s]: /v 't'\n", "[r]: /u\n     [s]: /v\n", "-\n", "1.\n", " -\n", "#######\n", "####### x\n", "###### \n"}
 
-var prefixes = []string{"", "> ", "  ", "   ", "> > ", ">  ", "    ", ">", "1. ", "- ", "10) ", "\t"}
+var prefixes = []string{"", "> ", "  ", "   ", "> > ", ">  ", "    ", ">", "1. ", "- ", "10) ", "\t", "08. ", " - ", "  1. ", "0019) "}
 var nls = []string{"\n", "\n", "\n", "\r\n", "\r"}
 
 // Lines is G2: line-structured documents with container prefixes that are
